@@ -579,6 +579,13 @@ func (lc *linCtx) lenOf(v ssa.Value) lin {
 		if isPkgFunc(cc, "math/rand", "Perm") {
 			return lc.of(cc.Args[0])
 		}
+		if builtinName(cc) == "append" && len(cc.Args) == 2 {
+			// len(append(a, b...)) = len(a) + len(b); b is the packed variadic slice or a spread slice
+			if k, isK := cc.Args[1].(*ssa.Const); isK && k.IsNil() {
+				return lc.lenOf(cc.Args[0])
+			}
+			return lc.lenOf(cc.Args[0]).add(lc.lenOf(cc.Args[1]))
+		}
 		if getterName(cc) == "SequenceChar" {
 			if owner, ok := lc.rowOwner(lc.recvOf(cc)); ok {
 				return linAtom("L(" + owner + ")")
@@ -706,6 +713,24 @@ func (lc *linCtx) of1(v ssa.Value) lin {
 			if isIntType(x.Type()) {
 				a, b := lc.of(x.X), lc.of(x.Y)
 				key := fmt.Sprintf("(%s)%s(%s)", a.String(), x.Op.String(), b.String())
+				if x.Op == token.QUO && b.isConst() && b.c > 0 {
+					// truncated division by k>0: |a - k·q| <= k-1, and k·q <= a when a >= 0
+					q := linAtom(key)
+					fs := []cons{
+						consLE(a.sub(q.scale(b.c)), linConst(b.c-1), "a - k·(a/k) <= k-1"),
+						consLE(q.scale(b.c).sub(a), linConst(b.c-1), "k·(a/k) - a <= k-1"),
+					}
+					nonneg := a.c >= 0
+					for at, k := range a.t {
+						if k < 0 || !(strings.HasPrefix(at, "len(") || strings.HasPrefix(at, "L(") || strings.HasPrefix(at, "N(")) {
+							nonneg = false
+						}
+					}
+					if nonneg {
+						fs = append(fs, consLE(q.scale(b.c), a, "k·(a/k) <= a for a >= 0"))
+					}
+					lc.atomFacts[key] = fs
+				}
 				if x.Op == token.REM && b.isConst() && b.c > 0 {
 					// result of x % k for k>0 lies in (-k, k); for x>=0 in [0,k)
 					lc.atomFacts[key] = []cons{
@@ -868,6 +893,15 @@ func (lc *linCtx) condCons(cond ssa.Value, taken bool) []cons {
 			return lc.condCons(x.X, !taken)
 		}
 	case *ssa.BinOp:
+		if v, trueIsNil, ok := nilTestOf(x); ok {
+			// nil error of a validating helper: its summary holds on the nil edge
+			if trueIsNil == taken {
+				if call := errCallOf(v); call != nil {
+					return lc.nilErrSummary(call)
+				}
+			}
+			return nil
+		}
 		if !isIntType(x.X.Type()) {
 			return nil
 		}
